@@ -346,7 +346,8 @@ type vc19MH struct{ length, maxw, chunk uint }
 func vc19MHParams() []vc19MH {
 	ps := []vc19MH{{1, 1, 1}, {5, 2, 3}, {4, 4, 2}, {4, 2, 2}, {10, 2, 3}, {10, 0, 3}, {8, 7, 4}, {16, 1, 5}, {20, 10, 30}, {4, 4, 1},
 		{65, 3, 1}, // 67 gadget calls: NTT-based polynomial multiplication
-		{126, 2, 2}} // 64 gadget calls with chunk length 2
+		{126, 2, 2}, // 64 gadget calls with chunk length 2
+		{300, 300, 18}} // weights of 256 and more (a weight counted in one octet wraps)
 	if lib.Thorough() {
 		ps = append(ps, vc19MH{100, 3, 10}, vc19MH{64, 64, 8}, vc19MH{33, 16, 7}, vc19MH{255, 128, 16}, vc19MH{2, 1, 2})
 	}
